@@ -363,6 +363,7 @@ impl Engine for C12 {
                 server_today: None,
                 clock_tz: sc.clock_tz,
                 now_shift: 0,
+                session: None,
                 fs_faults: FsFaultSpec::default(),
                 knobs: Knobs::default(),
                 hash_seed: sc.hash_seed,
@@ -506,6 +507,7 @@ impl Engine for C12 {
                 server_today: None,
                 clock_tz: sc.clock_tz,
                 now_shift: 0,
+                session: None,
                 fs_faults: FsFaultSpec::default(),
                 knobs: Knobs::default(),
                 hash_seed: sc.hash_seed ^ 0x11,
@@ -533,6 +535,7 @@ impl Engine for C12 {
                 server_today: None,
                 clock_tz: sc.clock_tz,
                 now_shift: 0,
+                session: None,
                 fs_faults: FsFaultSpec::default(),
                 knobs: Knobs::default(),
                 hash_seed: sc.hash_seed ^ 0x12,
@@ -622,6 +625,7 @@ impl Engine for C12 {
                 server_today: None,
                 clock_tz: sc.clock_tz,
                 now_shift: 0,
+                session: None,
                 fs_faults: FsFaultSpec::default(),
                 knobs: Knobs::default(),
                 hash_seed: sc.hash_seed,
@@ -675,6 +679,7 @@ impl Engine for C12 {
                     server_today: None,
                     clock_tz: sc.clock_tz,
                     now_shift: 0,
+                    session: None,
                     fs_faults: FsFaultSpec::default(),
                     knobs: Knobs::default(),
                     hash_seed: sc.hash_seed,
@@ -1099,6 +1104,7 @@ impl C12 {
             server_today: None,
             clock_tz: None,
             now_shift: 0,
+            session: None,
             fs_faults: FsFaultSpec::default(),
             knobs: Knobs::default(),
             hash_seed: sc.hash_seed ^ 0x21,
